@@ -116,26 +116,26 @@ CHECKS = {
 
 # Dimensions added after the seeded-defect rounds (DESIGN.md 9.1); appended to the technique text.
 ADDED = {
- "C01": "reader-shape dimension for blobs (whole, one byte, half, data together with io.EOF, failing part-way), signed empty/prefix blobs, near-miss payload content types, verifier-instance reuse; rounds 3-4: hand-labelled payload-byte shapes (members absent / null / reordered, trailing or leading data, repeated or case-variant member names), two-call histories reusing the caller's required-metadata map, notation.Verify over lists of 1-3 signatures, blob descriptors signed under every digest algorithm other than the key's, reserved-prefix and near-miss keys in the required metadata",
- "C02": "scheme dimension (x509 / signing authority), collaborator-phase histories on one verifier instance (Prior 0..3 incl. a blob verification under an equally named statement), two-store trust values with one store failing to load; rounds 3-4: trust values 'only a store of the other type listed' and 'store loads empty', position of the non-OK certificate in the revocation vector, not-yet-valid leaf / signed after leaf expiry, timestamping-configuration dimension",
+ "C01": "reader-shape dimension for blobs (whole, one byte, half, data together with io.EOF, failing part-way), signed empty/prefix blobs, near-miss payload content types, verifier-instance reuse; rounds 3-4: hand-labelled payload-byte shapes (members absent / null / reordered, trailing or leading data, repeated or case-variant member names), two-call histories reusing the caller's required-metadata map, notation.Verify over lists of 1-3 signatures, blob descriptors signed under every digest algorithm other than the key's, reserved-prefix and near-miss keys in the required metadata; round 5: blob readers failing with a temporary error after a prefix (seekable / non-seekable) before the signed content, required metadata pairs whose key=value concatenation collides with a signed pair",
+ "C02": "scheme dimension (x509 / signing authority), collaborator-phase histories on one verifier instance (Prior 0..3 incl. a blob verification under an equally named statement), two-store trust values with one store failing to load; rounds 3-4: trust values 'only a store of the other type listed' and 'store loads empty', position of the non-OK certificate in the revocation vector, not-yet-valid leaf / signed after leaf expiry, timestamping-configuration dimension; round 5: Prior 4 - the cell's own failing verification first, then repaired collaborators (a remembered rejection must not outlive its cause)",
  "C03": "instance-reuse histories (Prior 1..5), nested/enclosing scopes of the other statement, existing-but-empty store directories, aliasing family (a store returning a slice with spare capacity over a shared array must not be written through); rounds 3-4: levels x plugin kinds after the authenticity step, 10 near-miss store-name pairs, look-alike certificates (same subject/issuer/serial, other key; re-issued root), context cancelled when a store answer returns",
- "C04": "all leaves share key, issuer, validity and serial number; REV-only verification plugin; instance-reuse histories; colon / blank near-miss identities; printed-form identity lists; unknown-OID subjects must never match; rounds 3-4: honest identity plugin with capabilities [REV, TI] and revocation skipped, value twins equal only after a string preparation (invisible code points, NFC/NFD, look-alikes), characters moved across attribute boundaries",
- "C05": "TI-only verification plugin, instance-reuse histories (validator answered differently before), every exported verifier constructor, leaf with an empty subject; rounds 3-4: every certificate below the root as the trust anchor, other validations' actions in {enforce,log}^3, other logged validations failing, context seam (done before / cancelled during / deadline during the validator call)",
- "C06": "token transplanted from the previously verified signature (CopyOfPrior), frozen-clock boundary reads (NotAfter / expiry -1 ns, exactly, +1 ns); rounds 3-4: tsa store first / middle / last in the store list with every TSA root also in the signing store, time zones on both sides, instants before 1678 and before the epoch, strictly nested validity windows, histories over two verifier objects, built-in TSA revocation check against a CRL served on 127.0.0.1",
- "C07": "each extra descriptor field alone and in pairs, verify-option combinations, short-lived leaf with expiry durations beyond NotAfter; rounds 3-4: uncommon legal media-type spellings (RFC 2045 equality), artifacts signed 1-3 times in mixed formats by trusted and untrusted signers (70 orders) verified through notation.Verify, a blob other than the signed one presented to VerifyBlob, the longest expressible expiry duration",
+ "C04": "all leaves share key, issuer, validity and serial number; REV-only verification plugin; instance-reuse histories; colon / blank near-miss identities; printed-form identity lists; unknown-OID subjects must never match; rounds 3-4: honest identity plugin with capabilities [REV, TI] and revocation skipped, value twins equal only after a string preparation (invisible code points, NFC/NFD, look-alikes), characters moved across attribute boundaries; round 5: trust-configuration dimension (intermediate only, signing certificate itself alone / before / after its root / in a second store, self-signed leaf, signing-authority variants) x 36 subjects",
+ "C05": "TI-only verification plugin, instance-reuse histories (validator answered differently before), every exported verifier constructor, leaf with an empty subject; rounds 3-4: every certificate below the root as the trust anchor, other validations' actions in {enforce,log}^3, other logged validations failing, context seam (done before / cancelled during / deadline during the validator call); round 5: 13 Go value shapes of the caller's validator / client (pointer, stateful value, func adapter, zero-sized and zero-valued values)",
+ "C06": "token transplanted from the previously verified signature (CopyOfPrior), frozen-clock boundary reads (NotAfter / expiry -1 ns, exactly, +1 ns); rounds 3-4: tsa store first / middle / last in the store list with every TSA root also in the signing store, time zones on both sides, instants before 1678 and before the epoch, strictly nested validity windows, histories over two verifier objects, built-in TSA revocation check against a CRL served on 127.0.0.1; round 5: TSA chains whose certificates expire between genTime and verification x revoked TSA x the three verifyTimestamp options",
+ "C07": "each extra descriptor field alone and in pairs, verify-option combinations, short-lived leaf with expiry durations beyond NotAfter; rounds 3-4: uncommon legal media-type spellings (RFC 2045 equality), artifacts signed 1-3 times in mixed formats by trusted and untrusted signers (70 orders) verified through notation.Verify, a blob other than the signed one presented to VerifyBlob, the longest expressible expiry duration; round 5: 11 hand-written metadata maps (well-known namespaces, reserved-prefix neighbours, payload member names, '=' ',' blanks control characters in keys and values, 64 KiB value, 40 pairs)",
  "C08": "ambiguous documents (scope or wildcard in two statements, both orders) through the loader and the verifier constructor; end-to-end verification per selected statement; rounds 3-4: SkipVerify judged next to Verify, ambiguous blob documents (two or more global statements or a repeated name, 2-5 statements, every position)",
  "C09": "cross-statement family (3-4 statements x {duplicate name, shared / wildcard scope, global flag, skip}); store names with further colons, newline, NUL; rounds 3-4: identity lists without any x509.subject entry with the wildcard appended / prepended / in the middle, scopes composed from domain x repository alphabets",
  "C10": "references pinned by sha384 / sha512 digests against a repository resolving sha256; rounds 3-4: 7 fetch-error kinds x signed-payload variants, resolved descriptor with every optional field, listing decorations (created annotations in four orders), blob media types of non-verifying signatures",
- "C11": "reserved-prefix near misses; signer-annotations family (signer returns annotations colliding with the computed ones); rounds 3-4: empty-string vs absent annotation, byte-identical envelopes pushed again (every earlier signature must survive), metadata values with control / invisible characters, process-environment profiles as a seam",
+ "C11": "reserved-prefix near misses; signer-annotations family (signer returns annotations colliding with the computed ones); rounds 3-4: empty-string vs absent annotation, byte-identical envelopes pushed again (every earlier signature must survive), metadata values with control / invisible characters, process-environment profiles as a seam; round 5: a signer that signs every member it is handed + an artifact with platform / artifactType / urls, digest-reference shapes in three algorithms x own / foreign bytes x three spellings, repository with and without content.Fetcher",
  "C12": "every accepted mutated document is pushed through all four verification entry points; member insertion; integer-labelled critical COSE headers in the configuration matrix; rounds 3-4: 17 280-cell timestamp product, oversized plugin output in pipe-sized pieces with a relative allocation oracle, hostile foreign registry.Repository answers, cross-format descriptors, argument lists of SigningKeys operations",
- "C13": "reload-after-change histories on one trust-store object; upper/mixed-case types and names with decoys at the normalised path; self-issued leaves signed by another key; rounds 3-4: 25 file-name styles per entry kind, colliding roots (same name + serial), bad certificate first / middle of a bundle, stores of 1 025 / 10 001 entries, self-signed CAs whose issuer differs from the subject",
+ "C13": "reload-after-change histories on one trust-store object; upper/mixed-case types and names with decoys at the normalised path; self-issued leaves signed by another key; rounds 3-4: 25 file-name styles per entry kind, colliding roots (same name + serial), bad certificate first / middle of a bundle, stores of 1 025 / 10 001 entries, self-signed CAs whose issuer differs from the subject; round 5: caller-context seam (done before the call, scripted contexts becoming done at the 2nd / 3rd consultation, live) x all store contents of <= 3 entries; 6 certificate roles x 14 signature algorithms incl. retired digests and unevaluable identifiers",
  "C14": "twin bundles (same issuer, CRL number and dates) and a case-variant URL in the concurrent scenarios; rounds 3-4: environment-fault choices (ENOSPC / EIO / EXDEV) in the scheduler, private TMPDIR on another file system, Set under a cancelled context and under a context cancelled in mid-call, bundles of 1-52 MiB, goroutine-identity guard (foreign goroutines are reported, not mis-scheduled)",
  "C15": "twin bundles; frozen-clock boundary reads around NextUpdate; two-instance + external-change histories (Set/Get on two FileCache objects over one root, external delete / truncate / garbage / replace, depth 4-5); rounds 3-4: every byte appended / prepended / glued prefixes to an entry, full product of URL components with path-special values (9 504 URLs, decoys in every ancestor), 20 next-update instants from year 1 to 9999, 64 near-identical URL byte strings in all ordered pairs, 88 base/delta relations",
  "C16": "names longer than the error-message abbreviation threshold; Install -> Get/Verify histories on one manager; non-executable install sources; rounds 3-4: pre-state 'alone' (last entry of every container), 'absent but offered by the environment' (PATH and default plugin locations), neighbour plugins with 22 derived names",
- "C17": "(structured error, then sleep) x full stderr alphabet x deadline/cancel; overlapping calls on one plugin object (returned replies must not alias pooled buffers); near-miss contract version lists; rounds 3-4: bytes after a complete valid reply, stderr that is JSON but not an error object, busy-host histories (K parked calls, then a probe whose context ends), every error code x kill timing, wrong-typed members; marker-file synchronisation instead of sleeps",
- "C18": "signer-instance histories (honest call, then another key id); near-canonical spellings of the true key spec; rounds 3-4: 14 signature-value shapes for raw-signature plugins, content-type header absent / empty / null / number, members named like members of the other level, syntactically malformed digest / media type / size / annotations",
- "C19": "distinct annotation maps per push with aliasing checks on listed descriptors; fetch A, fetch B, compare A again; equivalent query descriptors; non-UTC / sub-second created annotations; rounds 3-4: envelopes beginning and ending with strippable bytes, re-push of bytes already in the layout, layouts whose subjects are not roots of index.json, 1-21 signatures on one artifact, hostile blobs of other media types",
- "C20": "sub-directory names sorting before / between / after the top-level files; capitalised metadata names; rounds 3-4: invalid versions on both sides of the comparison, bytes around a valid metadata object, non-answering installed plugins (6 kinds), one source location rewritten in place across a history, non-executable candidate-named files",
+ "C17": "(structured error, then sleep) x full stderr alphabet x deadline/cancel; overlapping calls on one plugin object (returned replies must not alias pooled buffers); near-miss contract version lists; rounds 3-4: bytes after a complete valid reply, stderr that is JSON but not an error object, busy-host histories (K parked calls, then a probe whose context ends), every error code x kill timing, wrong-typed members; marker-file synchronisation instead of sleeps; round 5: exit statuses 126 / 127 / 128+n x structured errors x 5 commands; plugin file names with extensions whose announced name is the stem",
+ "C18": "signer-instance histories (honest call, then another key id); near-canonical spellings of the true key spec; rounds 3-4: 14 signature-value shapes for raw-signature plugins, content-type header absent / empty / null / number, members named like members of the other level, syntactically malformed digest / media type / size / annotations; round 5: request-descriptor values (sizes 0 .. 2^63-1 around 2^31, 2^32, 2^53, 2^60; empty annotation values; annotation keys named like members; sha512 digest; parameterised media type) x all answers - found F-18b",
+ "C19": "distinct annotation maps per push with aliasing checks on listed descriptors; fetch A, fetch B, compare A again; equivalent query descriptors; non-UTC / sub-second created annotations; rounds 3-4: envelopes beginning and ending with strippable bytes, re-push of bytes already in the layout, layouts whose subjects are not roots of index.json, 1-21 signatures on one artifact, hostile blobs of other media types; round 5: composition of the blob list (12 entry kinds before / after / around one envelope, image and legacy manifests, null / absent / [] spellings)",
+ "C20": "sub-directory names sorting before / between / after the top-level files; capitalised metadata names; rounds 3-4: invalid versions on both sides of the comparison, bytes around a valid metadata object, non-answering installed plugins (6 kinds), one source location rewritten in place across a history, non-executable candidate-named files; round 5: 9 name classes and an attribute mix for the bystander files of an install source",
 }
 
 NOT_APPLICABLE = [
